@@ -31,6 +31,7 @@ import FastPasta.Props.C01
 import FastPasta.Props.C07
 import FastPasta.Proofs.StateSrcTie
 import FastPasta.Proofs.LinkSrcTie
+import FastPasta.Proofs.PayloadSrcTie
 namespace FastPasta
 namespace C02
 
@@ -1902,6 +1903,53 @@ theorem payload_src (cfg : CheckCfg) (v : SrcLink.CdpRunningValidator) (s : CdpS
   have hout : (v.set_current_rdh c off).2.f_out = v.f_out := rfl
   rw [← hout]
   exact check_words_src cfg c hst ws _ _ s' ms hW (by simp [SrcTie.startPkt]; omega) (by simp [SrcTie.startPkt]; omega) hok
+
+/-- the padding error of the source carries no `[E..]` code -/
+theorem preprocess_err_codes (p : Bytes) (e : Rs.Str) (h : SrcPayload.preprocess_payload p = .err e) : e.codes = [] := by
+  simp only [SrcPayload.preprocess_payload, SrcPayload.extract_payload_ff_padding] at h
+  split at h
+  · rename_i heq
+    split at heq
+    · cases heq; cases h; rfl
+    · cases heq
+  · cases h
+
+/-- **`do_payload_checks` = `payloadChecks`** (its/lib.rs, translated with the rest of `linkval.json`), both branches: a payload that
+    can be cut — `set_current_rdh`, then `check` on the first 10 bytes of every chunk `preprocess_payload` (C12) returns — and a payload
+    with more than 15 trailing 0xFF bytes — one message without code at the packet's offset, the state machine reset to its initial
+    state. From any related packet-independent state (`SrcTie.AbsR`), to a related one, with exactly the model's messages. -/
+theorem do_payload_checks_src (cfg : CheckCfg) (v : SrcLink.CdpRunningValidator) (s : CdpSt) (c : SrcRdh.RdhCru) (off : Nat) (payload : Bytes)
+    (h : SrcTie.AbsR cfg v s) (hst : cfg.stave = false) (hp : payload.length < 2^64) (hoff : off + 64 + 65536 * 16 < 2^64)
+    (hlen : ∀ ws, cutPayload payload = some ws → ws.length < 65536)
+    (s' : CdpSt) (ms : List Msg) (hok : payloadChecks cfg s off (SrcTie.toModel c) payload = .ok (s', ms)) :
+    SrcTie.AbsR cfg (SrcLink.do_payload_checks (c, payload, off) v) s' ∧
+    SrcTie.outMsgs (SrcLink.do_payload_checks (c, payload, off) v).f_out = SrcTie.outMsgs v.f_out ++ ms := by
+  obtain ⟨hset, hW⟩ := SrcTie.set_current_rdh_eq cfg v s c off h hst (by omega)
+  have hcut := SrcTie.preprocess_eq payload hp
+  have hout : (v.set_current_rdh c off).2.f_out = v.f_out := rfl
+  simp only [SrcLink.do_payload_checks]
+  cases hr : SrcPayload.preprocess_payload payload with
+  | err e =>
+    rw [hr] at hcut
+    simp only [payloadChecks, hset, hcut, Except.ok.injEq, Prod.mk.injEq] at hok
+    obtain ⟨rfl, rfl⟩ := hok
+    have hc := preprocess_err_codes payload e hr
+    simp only [Rs.Res.isErr_err, if_true, Rs.Res.errStr_err, SrcLink.CdpRunningValidator.reset_fsm, SrcLink.CdpRunningValidator.report_at]
+    have hR := hW.toAbsR
+    refine ⟨⟨hR.running, hR.period, C09.initial_eq_src.symm, hR.ihw, hR.tdhs, hR.tdt, hR.ddw0, hR.cdw⟩, ?_⟩
+    simp [SrcTie.outMsgs, SrcTie.reportMsgs, hout, hc, mkErrNoWord, SrcTie.codeStr, Rs.Str.app, Rs.Str.lit]
+  | ok cs =>
+    rw [hr] at hcut
+    simp only [payloadChecks, hset, hcut] at hok
+    simp only [Rs.Res.isErr_ok, Bool.false_eq_true, if_false, Rs.Res.unwrapD_ok]
+    have hfold : List.foldl (fun v w => (SrcLink.CdpRunningValidator.check v (w.take 10)).2) (v.set_current_rdh c off).2 cs =
+        List.foldl (fun v w => (SrcLink.CdpRunningValidator.check v w).2) (v.set_current_rdh c off).2 (cs.map (·.take 10)) := by
+      rw [List.foldl_map]
+    rw [hfold, ← hout]
+    have hl := hlen _ hcut
+    obtain ⟨a, o⟩ := check_words_src cfg c hst (cs.map (·.take 10)) _ _ s' ms hW (by simp [SrcTie.startPkt] at hl ⊢; omega)
+      (by simp [SrcTie.startPkt]; omega) hok
+    exact ⟨a.toAbsR, o⟩
 
 /-- non-vacuity: a freshly built source validator stands for the model's state at the first word of a packet -/
 example : SrcTie.Abs { running := true }
